@@ -20,6 +20,8 @@ class _RT:
     rt_print = staticmethod(core.rt_print)
     rt_isinstance = staticmethod(core.rt_isinstance)
     concrete_if_unique = staticmethod(core.concrete_if_unique)
+    rt_splitext = staticmethod(core.rt_splitext)
+    rt_basename = staticmethod(core.rt_basename)
     ReShim = regex.ReShim
 
 
@@ -57,6 +59,9 @@ class Rewriter(ast.NodeTransformer):
         root = f
         while isinstance(root, ast.Attribute):
             root = root.value
+        if isinstance(root, ast.Name) and root.id == "os" and isinstance(f, ast.Attribute) \
+                and f.attr in ("splitext", "basename") and len(node.args) == 1 and not node.keywords:
+            return ast.Call(func=_rt("rt_" + f.attr), args=node.args, keywords=[])
         if isinstance(root, ast.Name) and root.id == "os" and isinstance(f, ast.Attribute):
             node.args = [ast.Call(func=_rt("concrete_if_unique"), args=[a], keywords=[]) for a in node.args]
         return node
